@@ -47,6 +47,13 @@ class _Continue(Exception):
     pass
 
 
+class GeneratorContext:
+    """what calling a contextlib.contextmanager-decorated function returns: the function and its arguments, run by the with statement"""
+
+    def __init__(self, fn, args, kwargs):
+        self.fn, self.args, self.kwargs = fn, list(args), dict(kwargs)
+
+
 class Frame:
     __slots__ = ('locals', 'func', 'closure', 'globs', 'globalnames', 'cls_ns')
 
@@ -654,9 +661,18 @@ class Interp:
         raise Unsupported('except spec')
 
     def s_With(self, s, f):
+        if len(s.items) == 1:
+            m0 = self.eval(s.items[0].context_expr, f)
+            if isinstance(m0, GeneratorContext):
+                return self.with_generator_context(m0, s, f)
+            first = [m0]
+        else:
+            first = []
         mgrs = []
-        for item in s.items:
-            m = self.eval(item.context_expr, f)
+        for k, item in enumerate(s.items):
+            m = first[0] if (k == 0 and first) else self.eval(item.context_expr, f)
+            if isinstance(m, GeneratorContext):
+                raise Unsupported('several context managers in one with statement, one of them generator based')
             enter = self.getattr(m, '__enter__')
             v = self.call(enter, [], {})
             if item.optional_vars is not None:
@@ -674,6 +690,38 @@ class Interp:
         else:
             for m in reversed(mgrs):
                 self.call(self.getattr(m, '__exit__'), [None, None, None], {})
+
+    def with_generator_context(self, m, s, f):
+        """`with cm(...) as v: BODY` for a function decorated with contextlib.contextmanager: the generator function runs up to its
+        `yield`, the BODY runs there (an exception of the BODY is raised at the yield, as `gen.throw` does), the function then runs to
+        its end.  return / break / continue in the BODY take effect after the function has finished, as they do in Python."""
+        item = s.items[0]
+        state = {'yields': 0, 'pending': None}
+
+        def at_yield(value):
+            state['yields'] += 1
+            if state['yields'] > 1:
+                self.throw('RuntimeError', "generator didn't stop")
+            if item.optional_vars is not None:
+                self.assign(item.optional_vars, value, f)
+            try:
+                self.exec_block(s.body, f)
+            except (_Return, _Break, _Continue) as c:
+                state['pending'] = c
+            return None
+        fn, args, kwargs = m.fn, m.args, m.kwargs
+        loc = self.bind_args(fn, args, kwargs)
+        fr = Frame(fn, fn.globs, fn.closure)
+        fr.locals = loc
+        fr.locals['$at_yield'] = at_yield
+        try:
+            self.exec_block(fn.node.body, fr)
+        except _Return:
+            pass
+        if state['yields'] == 0:
+            self.throw('RuntimeError', "generator didn't yield")
+        if state['pending'] is not None:
+            raise state['pending']
 
     # ------------------------------------------------------------------ names
     def load_name(self, name, f):
@@ -1170,6 +1218,11 @@ class Interp:
         return VList(out)
 
     def e_Yield(self, e, f):
+        fr = f
+        while fr is not None and '$yield' not in fr.locals and '$at_yield' not in fr.locals:
+            fr = fr.closure
+        if fr is not None and '$at_yield' in fr.locals:
+            return fr.locals['$at_yield'](None if e.value is None else self.eval(e.value, f))
         fr = f
         while '$yield' not in fr.locals:
             fr = fr.closure
